@@ -417,6 +417,16 @@ def c15(run, args):
     impl_cfg = lambda old, rf: ("SPECIFICATION Spec\nCONSTANTS\n  Buf = 2\n  OpCap = 2\n  MaxEvents = %d\n  OldClose = %s\n  RemoveFirst = %s\n"
                                 "INVARIANTS HubNeverStuck NoPanic RecorderInOrder RecorderComplete\nCHECK_DEADLOCK FALSE\n" % (6 if quick else 8, old, rf))
     run.model_check("MCHubImpl", impl_cfg("FALSE", "FALSE"), label="HubImpl (hub actor + socket listener as repaired)")
+    # liveness under weak fairness (no state constraint): every announced event reaches the recording listener in the end
+    live_cfg = lambda old, rf: ("SPECIFICATION FairSpec\nCONSTANTS\n  Buf = 2\n  OpCap = 2\n  MaxEvents = 6\n  OldClose = %s\n  RemoveFirst = %s\n"
+                                "PROPERTIES EventuallyDelivered\nCHECK_DEADLOCK FALSE\n" % (old, rf))
+    run.model_check("MCHubImpl", live_cfg("FALSE", "FALSE"), label="HubImpl liveness: EventuallyDelivered", workers=2)
+    for name, flags in (("OldClose", ("TRUE", "FALSE")), ("RemoveFirst", ("FALSE", "TRUE"))):
+        rc, out, dt = run.tlc("MCHubImpl", live_cfg(*flags), workers=2, timeout=600, heap="4g")
+        ok_ = "Temporal property EventuallyDelivered was violated" in out
+        run.cov["stages"].append({"stage": "model-check", "module": "HubImpl liveness (%s=TRUE)" % name, "mode": "prediction", "violated_as_predicted": ["EventuallyDelivered"] if ok_ else [], "wall_s": round(dt, 1)})
+        if not ok_:
+            raise Inconclusive("the deviation %s of HubImpl no longer violates EventuallyDelivered: model and check have drifted apart" % name)
     for name, flags in (("OldClose", ("TRUE", "FALSE")), ("RemoveFirst", ("FALSE", "TRUE"))):
         rc, out, dt = run.tlc("MCHubImpl", impl_cfg(*flags), workers=4, timeout=600, heap="4g", extra=["-continue"])
         predicted = [x for x in ("HubNeverStuck", "NoPanic", "RecorderComplete") if ("Invariant %s is violated" % x) in out]
